@@ -141,7 +141,9 @@ def build(rng, tier):
             r2 = rng.fork(f"{pid}h{j}")
             inp = gen.nodup_input(r2, p, max_rows=6)
             inst = f"{pid}_{j}"
-            ops = [f"eng new {inst} {pid} par {r2.choice([1, 2, 4, 8])}"] + engcheck.load_ops(inst, inp) + [f"eng run {inst}", f"eng dump {inst}", f"eng run {inst}", f"eng dump {inst}", f"eng run {inst}", f"eng dump {inst}"]
+            t = r2.choice([1, 2, 4, 8])
+            rn = f"runpp {inst} {t}" if j == 1 else f"run {inst}"      # one history in three: the Lean side is the parallel physical-index model (aggregation through the concurrent indices)
+            ops = [f"eng new {inst} {pid} par {t}"] + engcheck.load_ops(inst, inp) + [f"eng {rn}", f"eng dump {inst}", f"eng {rn}", f"eng dump {inst}", f"eng {rn}", f"eng dump {inst}"]
             cases.append(engcheck.Case(pid, inst, ops, {"inp": inp, "marks": ["same", "same"], "kind": "agg-rerun-par"}))
     # BYODS relations (`#[ds(trrel)]`, `#[ds(eqrel)]`, `#[ds(trrel_uf)]`) fed by a plain relation: run; run; push edges into the feeding relation; run - the provider's merge meets
     # a relation whose content sits in `delta` with an empty `total` at the start of the re-run; new tuples must be joined with what the relation already holds.
